@@ -170,3 +170,7 @@ Proof. intros hs hi n he H. destruct hs, hi, he, n; try discriminate; vm_compute
 Lemma longname_owner_agrees : forall hs hi stat_ids iface_ids,
   ls_owner hs hi stat_ids iface_ids = fileStat_owner hs hi stat_ids iface_ids.
 Proof. reflexivity. Qed.
+
+Lemma listed_owner_is_the_reported_one : forall (hs : bool) stat_ids iface_ids,
+  fileStat_owner hs true stat_ids iface_ids = iface_ids /\ fileStat_owner true false stat_ids iface_ids = stat_ids.
+Proof. intros hs s i. split; [apply owner_from_interface | apply owner_from_stat_t]. Qed.
